@@ -42,7 +42,7 @@ META = {
 TYPES = ['TA', 'TB', 'TC', 'TD', 'TE']
 
 
-SECTIONS = ('bonds', 'angles', 'dihedrals', 'constraints')
+SECTIONS = ('bonds', 'angles', 'dihedrals', 'constraints', 'pairs', 'virtual_sites3')
 
 
 def mask_key(types4, mask):
@@ -59,6 +59,17 @@ def gen_case(rng, forced=None):
             'inters': {'bonds': [], 'angles': [], 'dihedrals': [], 'constraints': []}, 'nonbond': []}
     if rng.random() < 0.5:
         case['defines'] = {'gb_1': ['0.153', '7150000'], 'ga_2': ['109.5', '520.0']}
+    # sections without bonded types ([ pairs ] with explicit 1-4 parameters, virtual-site constructions): parameters may be
+    # macros too (macro names that are prefixes of one another included)
+    case['inters']['pairs'], case['inters']['virtual_sites3'] = [], []
+    if case['defines'] and rng.random() < 0.7:
+        case['defines'].update({'pc_1': ['0.35', '1.25'], 'pc_10': ['0.41', '0.75'], 'vs_a': ['0.2500'], 'vs_b': ['0.1250']})
+        for _ in range(rng.randint(1, 2)):
+            idx = rng.sample(range(natoms), 2)
+            if not any(sorted(o['idx']) == sorted(idx) for o in case['inters']['pairs']):
+                case['inters']['pairs'].append({'idx': idx, 'params': ['1', rng.choice(['pc_1', 'pc_10'])] if rng.random() < 0.7 else ['1', '0.300', '2.000']})
+        if rng.random() < 0.6:
+            case['inters']['virtual_sites3'].append({'idx': rng.sample(range(natoms), 4), 'params': ['1', 'vs_a', rng.choice(['vs_b', '0.3000'])]})
     # interactions
     for sec, n in (('bonds', 2), ('angles', 3), ('dihedrals', 4)):
         for _ in range(rng.randint(1, 3)):
@@ -141,7 +152,7 @@ def top_of(case):
     out += ['[ moleculetype ]', 'MOL 1', '[ atoms ]']
     for i, t in enumerate(case['atoms']):
         out.append(f"{i + 1} {t} 1 RES A{i} {i + 1} 0.0 12.0")
-    for sec in ('bonds', 'angles', 'dihedrals', 'constraints'):
+    for sec in SECTIONS:
         if case['inters'].get(sec):
             out.append(f"[ {sec} ]")
             for it in case['inters'][sec]:
@@ -225,6 +236,17 @@ def spec_judge(case, out):
     bad = []
     if 'error' in out:
         return bad
+    # #define macros are substituted token by token, in every section and every instance
+    for sec in SECTIONS:
+        for it in case['inters'].get(sec, []):
+            if len(it['params']) <= 1 or not any(t in case['defines'] for t in it['params']):
+                continue
+            exp = [x for t in it['params'] for x in case['defines'].get(t, [t])]
+            for k, inst in enumerate(out['instances']):
+                got = [p for a, p in inst[sec] if a == it['idx']]
+                if got != [exp]:
+                    bad.append(f"{sec} on atoms {it['idx']} written with parameters {it['params']}: instance {k} carries {got}, the macros expand to {exp}")
+                    return bad
     for sec, n in (('bonds', 2), ('angles', 3), ('dihedrals', 4), ('constraints', 2)):
         tbl = {}
         for row in case['tables'].get(sec, []):
